@@ -36,3 +36,5 @@ func verifYield(_ uint8, _ *sync.Mutex) {}
 func verifSkew(start time.Time) time.Time { return start }
 
 func verifProbe(_ uint8) {}
+
+func verifMoveSlice[T any](s []T) []T { return s }
